@@ -318,6 +318,8 @@ func ruleIDClosure(c *Ctx) []Obligation {
 	// and finding it there records an error
 	con := "an identity that turns up among its own derivations is reported"
 	var test *ssa.Lookup
+	anyReports, onlySilent, hadLookup := false, false, false
+	_ = hadLookup
 	eachInstr(fn, func(in ssa.Instruction) {
 		l, isL := in.(*ssa.Lookup)
 		if !isL || l.CommaOk {
@@ -333,9 +335,68 @@ func ruleIDClosure(c *Ctx) []Obligation {
 		if _, local := l.X.(*ssa.MakeMap); !local {
 			return
 		}
-		test = l
+		// of several such lookups, the one whose hit makes an error
+		reports := false
+		for _, r := range *l.Referrers() {
+			if ifi, isIf := r.(*ssa.If); isIf && errorMadeFrom(ifi.Block().Succs[0], map[*ssa.BasicBlock]bool{ifi.Block(): true}) {
+				reports = true
+			}
+		}
+		if test == nil || reports {
+			test = l
+		}
+		if !reports && !anyReports {
+			onlySilent = true
+		}
+		if reports {
+			anyReports = true
+		}
 	})
+	if test != nil && !anyReports && onlySilent {
+		test = nil // none of the lookups is the cycle test: look for the scan form below
+		hadLookup = true
+	}
+	// … or the finished list is scanned for the identity itself: a comparison of an element of an identity list
+	// with an identity, whose equal branch makes an error
+	scanned := ""
+	if test == nil {
+		eachInstr(fn, func(in ssa.Instruction) {
+			bo, isB := in.(*ssa.BinOp)
+			if !isB || bo.Op != token.EQL || scanned != "" {
+				return
+			}
+			pt, isP := bo.X.Type().(*types.Pointer)
+			if !isP || namedOf(pt.Elem()) != idT {
+				return
+			}
+			elem := false
+			for _, side := range []ssa.Value{bo.X, bo.Y} {
+				operandClosure(side, func(x ssa.Value) {
+					switch y := x.(type) {
+					case *ssa.IndexAddr:
+						if _, f, _ := loadedField(y.X); f == nil {
+							elem = true // an element of a local list
+						}
+					case *ssa.Next:
+						elem = true
+					}
+				})
+			}
+			if !elem {
+				return
+			}
+			for _, r := range refsOf(bo) {
+				if ifi, isIf := r.(*ssa.If); isIf && errorMadeFrom(ifi.Block().Succs[0], map[*ssa.BasicBlock]bool{ifi.Block(): true}) {
+					scanned = c.InstrPos(bo)
+				}
+			}
+		})
+	}
 	switch {
+	case test == nil && scanned != "":
+		obs = append(obs, ok(R, con, scanned, "the finished list is scanned for the identity itself; a hit makes an error"))
+	case test == nil && hadLookup:
+		obs = append(obs, bad(R, con, c.Pos(fn.Pos()), "finding the identity in its own closure records nothing: a derivation cycle is accepted silently"))
 	case test == nil:
 		obs = append(obs, bad(R, con, c.Pos(fn.Pos()), "the visited set of the closure walk is never consulted for the identity itself: a derivation cycle (a derived from b, b from a) is accepted silently and every identity on it lists itself"))
 	default:
